@@ -101,7 +101,15 @@ func main() {
 		}
 		res := sim.Run(raw, *prop, *events)
 		b, _ := json.Marshal(res)
-		fmt.Println(string(b))
+		if *out != "" {
+			// (the result goes to a file when asked: the library under test may print to stdout)
+			if err := os.WriteFile(*out, b, 0o644); err != nil {
+				fmt.Fprintln(os.Stderr, err)
+				os.Exit(2)
+			}
+		} else {
+			fmt.Println(string(b))
+		}
 	case "batch":
 		t0 := time.Now()
 		w := bufio.NewWriter(os.Stdout)
